@@ -13,7 +13,9 @@ def prog_str(program, for_model=False):
         elif k == 's': out.append("s")
         elif k in 'fg': out.append(k + hx(c[1]))
         elif k in 'atd': out.append(k + hx(c[1]) + ";" + hx(c[2]))
-        elif k == 'S': out.append("S" + hx(c[1]) + (";" + hx(c[2]) if for_model else ""))
+        elif k == 'S':
+            if for_model and len(c) > 3: out.append("C" + hx(c[1]) + ";" + hx(c[3]))
+            else: out.append("S" + hx(c[1]) + (";" + hx(c[2]) if for_model else ""))
         else: raise ValueError(c)
     return ",".join(out) if out else "-"
 
